@@ -354,6 +354,22 @@ type vf01CnrState struct {
 	touched bool // something was recorded for the container since its last physical cleanup
 	stored  map[oid.ID]bool
 	mark    map[oid.ID]vf01Mark
+	// cover: removal actions (tombstone put, default garbage mark) that were accepted for an
+	// ancestor of the object while the object was stored, see coverParts
+	cover map[oid.ID][]vf01Cover
+	// rhint: a redundant mark was requested for the object or an ancestor since it was
+	// stored/revived (evidence only: how often removal actions meet such objects)
+	rhint map[oid.ID]bool
+}
+
+// vf01Cover names one removal action that covered a stored part of a composite object.
+type vf01Cover struct {
+	by   oid.ID // tomb: ID of the tombstone object; otherwise ID of the marked ancestor
+	tomb bool
+}
+
+func vf01NewCnrState() *vf01CnrState {
+	return &vf01CnrState{stored: map[oid.ID]bool{}, mark: map[oid.ID]vf01Mark{}, cover: map[oid.ID][]vf01Cover{}, rhint: map[oid.ID]bool{}}
 }
 
 type vf01Model struct {
@@ -365,7 +381,7 @@ type vf01Model struct {
 func vf01NewModel(u *vf01Universe) *vf01Model {
 	m := &vf01Model{u: u}
 	for range u.cnrs {
-		m.c = append(m.c, &vf01CnrState{stored: map[oid.ID]bool{}, mark: map[oid.ID]vf01Mark{}})
+		m.c = append(m.c, vf01NewCnrState())
 	}
 	return m
 }
@@ -459,6 +475,79 @@ func (m *vf01Model) tombstoned(ci int, id oid.ID) bool {
 		}
 	}
 	return false
+}
+
+// ancestors: the parent and grandparent the stored headers tell about (nesting <= 2).
+func (m *vf01Model) ancestors(ci int, id oid.ID) []oid.ID {
+	var res []oid.ID
+	for p := m.parentOf(ci, id); !p.IsZero() && len(res) < 2; p = m.parentOf(ci, p) {
+		res = append(res, p)
+	}
+	return res
+}
+
+// coverParts records that a removal action aimed at anc was accepted while the listed
+// objects were stored parts (children, grandchildren) of anc.  The statement makes such a
+// part inherit the removed / not found status of anc, and listing has to omit "exactly
+// the objects marked for removal": a stored part of an object that was tombstoned or
+// garbage-marked as a whole is marked for removal for as long as that action stands.
+// Parts that arrive later, were revived on their own or lost the header that ties them to
+// anc are not covered (the statement is silent there).  Returns the covered parts.
+func (m *vf01Model) coverParts(ci int, anc oid.ID, cv vf01Cover) []oid.ID {
+	c := m.c[ci]
+	var res []oid.ID
+	for _, s := range m.u.slots[ci] {
+		if !c.stored[s.id] || s.id == anc || !vf01Contains(m.ancestors(ci, s.id), anc) {
+			continue
+		}
+		dup := false
+		for _, o := range c.cover[s.id] {
+			dup = dup || o == cv
+		}
+		if !dup {
+			c.cover[s.id] = append(c.cover[s.id], cv)
+		}
+		res = append(res, s.id)
+	}
+	return res
+}
+
+// coveredBy tells whether a removal action that covered the stored part still stands:
+// the tombstone is still stored / the ancestor still carries its default garbage mark, and
+// the stored headers still tie the part to that ancestor.
+func (m *vf01Model) coveredBy(ci int, id oid.ID) (string, bool) {
+	c := m.c[ci]
+	if !c.stored[id] || len(c.cover[id]) == 0 {
+		return "", false
+	}
+	anc := m.ancestors(ci, id)
+	for _, cv := range c.cover[id] {
+		if cv.tomb {
+			t := m.u.slot(ci, cv.by)
+			if t != nil && c.stored[cv.by] && vf01Contains(anc, t.target) {
+				return "tombstone " + t.Name + " of ancestor " + m.u.slot(ci, t.target).Name, true
+			}
+		} else if c.mark[cv.by] == vf01MarkDefault && vf01Contains(anc, cv.by) {
+			return "garbage mark of ancestor " + m.u.slot(ci, cv.by).Name, true
+		}
+	}
+	return "", false
+}
+
+func (m *vf01Model) uncover(ci int, id oid.ID) {
+	c := m.c[ci]
+	delete(c.cover, id)
+	delete(c.rhint, id)
+	// actions that are withdrawn together with id (a deleted tombstone, a lifted mark)
+	for k, l := range c.cover {
+		n := l[:0]
+		for _, cv := range l {
+			if cv.by != id {
+				n = append(n, cv)
+			}
+		}
+		c.cover[k] = n
+	}
 }
 
 // markOf returns (definitely default-marked, possibly default-marked).  obs is the set of
@@ -638,8 +727,10 @@ func (m *vf01Model) setUnknownUnlessDefault(ci int, id oid.ID) {
 	}
 }
 
-func (m *vf01Model) applyPut(s *vf01Slot) {
+// applyPut returns the stored parts covered by the put (tombstones only).
+func (m *vf01Model) applyPut(s *vf01Slot) (covered []oid.ID, overRedundant int) {
 	c := m.c[s.ci]
+	was := c.stored[s.id]
 	c.stored[s.id] = true
 	c.touched = true
 	if s.typ == object.TypeTombstone {
@@ -648,16 +739,45 @@ func (m *vf01Model) applyPut(s *vf01Slot) {
 		for _, r := range m.relatives(s.ci, s.target) {
 			m.setUnknownUnlessDefault(s.ci, r)
 		}
+		if !was {
+			// a repeated put of a stored tombstone is acknowledged without any effect
+			covered = m.coverParts(s.ci, s.target, vf01Cover{by: s.id, tomb: true})
+			for _, id := range covered {
+				if c.rhint[id] {
+					overRedundant++
+				}
+			}
+		}
 	}
+	return
 }
 
-func (m *vf01Model) applyMark(ci int, ids []oid.ID, redundant bool) {
+func (m *vf01Model) applyMark(ci int, ids []oid.ID, redundant bool) (covered, overRedundant int) {
 	c := m.c[ci]
 	if c.gone {
 		return
 	}
 	for _, id := range ids {
 		old := c.mark[id]
+		if c.touched && !redundant {
+			l := m.coverParts(ci, id, vf01Cover{by: id})
+			covered += len(l)
+			for _, p := range l {
+				if c.rhint[p] {
+					overRedundant++
+				}
+			}
+		}
+		if redundant {
+			if c.stored[id] {
+				c.rhint[id] = true
+			}
+			for _, s := range m.u.slots[ci] {
+				if c.stored[s.id] && vf01Contains(m.ancestors(ci, s.id), id) {
+					c.rhint[s.id] = true
+				}
+			}
+		}
 		switch {
 		case !c.touched:
 			// nothing was ever recorded for the container: whether a mark on an absent
@@ -674,6 +794,7 @@ func (m *vf01Model) applyMark(ci int, ids []oid.ID, redundant bool) {
 			m.setUnknownUnlessDefault(ci, r)
 		}
 	}
+	return
 }
 
 // applyDelete: physical removal of the listed objects (and, as documented for Delete, of
@@ -697,6 +818,7 @@ func (m *vf01Model) applyDelete(ci int, ids []oid.ID) {
 		if c.stored[id] {
 			delete(c.stored, id)
 			c.mark[id] = vf01MarkNone
+			m.uncover(ci, id)
 		}
 	}
 	for _, id := range all {
@@ -728,16 +850,18 @@ func vf01Contains(l []oid.ID, id oid.ID) bool {
 func (m *vf01Model) applyRevive(ci int, id oid.ID, tomb oid.ID) {
 	c := m.c[ci]
 	c.mark[id] = vf01MarkNone
+	m.uncover(ci, id)
 	if !tomb.IsZero() {
 		delete(c.stored, tomb)
 		c.mark[tomb] = vf01MarkNone
+		m.uncover(ci, tomb)
 	}
 }
 
 func (m *vf01Model) applyInhumeContainer(ci int) { m.c[ci].gone = true; m.c[ci].touched = true }
 
 func (m *vf01Model) applyDeleteContainer(ci int) {
-	m.c[ci] = &vf01CnrState{stored: map[oid.ID]bool{}, mark: map[oid.ID]vf01Mark{}}
+	m.c[ci] = vf01NewCnrState()
 }
 
 func (m *vf01Model) nonTrivial() bool {
